@@ -9,7 +9,8 @@ import ast
 from . import astutil as A
 from . import rules_registry as RR
 from .cfg import CFG, own_exprs
-from .rules_order import (Flow, _nodes_with, _self_call, _test_edges, call_arg, is_every_source, local_defs, name_node,
+from .partial import local_value
+from .rules_order import (Flow, _nodes_with, _self_call, _test_edges, call_arg, is_every_source, local_defs, mirror, name_node,
                           none_test_edges, on_cycle, only_raises, param_env, pmatch, raise_class_ok, reach_under, same,
                           self_attr, value_sources)
 from .srcmodel import AnalysisError, ClassInfo, FuncInfo, norm, walk_function
@@ -792,6 +793,29 @@ def _kind_edges(cfg, var, kind):
     return _test_edges(cfg, m)
 
 
+def _test_edges_resolved(cfg, match):
+    """_test_edges, with the left operand of a comparison read through a local that stands for an expression there
+    (`n = len(x.value) ... if n != 1` is the test `len(x.value) != 1`; partial.local_value states when that holds)."""
+    out = []
+    cache = {}
+    for n in cfg.nodes:
+        if n.kind != 'test':
+            continue
+        inner, pos = A.strip_not(n.ast)
+        for cand in (inner, mirror(inner)):
+            if cand is None:
+                continue
+            if isinstance(cand, ast.Compare) and len(cand.ops) == 1 and isinstance(cand.left, ast.Name):
+                v = local_value(cfg, n, cand.left.id, cache)
+                if v is not None:
+                    cand = ast.Compare(left=v, ops=cand.ops, comparators=cand.comparators)
+            r = match(cand)
+            if r is not None:
+                out.append((n, r if pos else (not r)))
+                break
+    return out
+
+
 def _value_uses(cfg, var, kinds=None):
     """CFG nodes that read <var>.value other than to take its length."""
     out = []
@@ -897,7 +921,7 @@ def r_shape_dispatch_total(ctx, repo):
             checks.append((loop, seq_edges, 'the node is a sequence'))
             for u in uses:
                 checks.append((u, _kind_edges(cfg, sub, 'MappingNode'), 'each entry is a mapping'))
-                checks.append((u, _test_edges(cfg, one), 'each entry has exactly one pair'))
+                checks.append((u, _test_edges_resolved(cfg, one), 'each entry has exactly one pair'))
         for target, edges, what in checks:
             if edges and cfg.guarded(target, edges=edges):
                 rule.ok(f.loc(), '%s checks that %s' % (f.name, what))
@@ -1175,27 +1199,39 @@ def r_field_vocab(ctx, repo):
     fields = _assigned_from(r.node, lambda d: _self_call('construct_mapping')(d))
     read = set()
     field_of = {}                 # local -> key it receives
+
+    def field_key(e):
+        """the constant key when e reads a field of the constructed mapping: m.get(k[, default]) / m.pop(k[, default]) / m[k],
+        also with a fallback for a missing / empty field (`m.get(k) or default`)."""
+        if isinstance(e, ast.BoolOp) and isinstance(e.op, ast.Or):
+            e = e.values[0]
+        if isinstance(e, ast.Call) and isinstance(e.func, ast.Attribute) and e.func.attr in ('get', 'pop') \
+                and isinstance(e.func.value, ast.Name) and e.func.value.id in fields and e.args:
+            return A.const_str(e.args[0])
+        if isinstance(e, ast.Subscript) and isinstance(e.ctx, ast.Load) and isinstance(e.value, ast.Name) and e.value.id in fields:
+            return A.const_str(e.slice)
+        return None
     for n in walk_function(r.node):
-        key = None
-        if isinstance(n, ast.Call) and isinstance(n.func, ast.Attribute) and n.func.attr in ('get', 'pop') \
-                and isinstance(n.func.value, ast.Name) and n.func.value.id in fields and n.args:
-            key = A.const_str(n.args[0])
-        elif isinstance(n, ast.Subscript) and isinstance(n.ctx, ast.Load) and isinstance(n.value, ast.Name) and n.value.id in fields:
-            key = A.const_str(n.slice)
+        key = field_key(n) if isinstance(n, (ast.Call, ast.Subscript)) else None
         if key:
             read.add(key)
-            st = getattr(n, '_parent', None)
-            if isinstance(st, ast.Assign) and st.value is n and len(st.targets) == 1 and isinstance(st.targets[0], ast.Name):
-                field_of[st.targets[0].id] = key
-    # plain copies of such locals carry the same field
+    # the locals that receive a field: any binding of the name (plain, or element-wise in a parallel assignment
+    # `a, b = m.get('a'), m.get('b')`) whose value is such a read; plain copies of such locals carry the same field
+    defs = local_defs(r.node)
     grew = True
     while grew:
         grew = False
-        for n in walk_function(r.node):
-            if isinstance(n, ast.Assign) and len(n.targets) == 1 and isinstance(n.targets[0], ast.Name) \
-                    and isinstance(n.value, ast.Name) and n.value.id in field_of and n.targets[0].id not in field_of:
-                field_of[n.targets[0].id] = field_of[n.value.id]
-                grew = True
+        for nm, ds in defs.items():
+            if nm in field_of:
+                continue
+            for d in ds:
+                key = None
+                if d is not None:
+                    key = field_key(d) or (field_of.get(d.id) if isinstance(d, ast.Name) else None)
+                if key:
+                    field_of[nm] = key
+                    grew = True
+                    break
     if written <= read:
         rule.ok(w.loc(), 'written %s subset of read %s' % (sorted(written), sorted(read)))
     else:
